@@ -1,6 +1,6 @@
 (* executable wrappers comparing the C02 model (Model/KDTree.v) with observations of the implementation *)
 From Coq Require Import ZArith Bool List PrimFloat.
-From PR Require Import Base.Num Base.F64 Base.ListX Model.KDTree.
+From PR Require Import Base.Num Base.F64 Base.ListX Base.Imp Model.KDTree Model.NdArr Gen.GenC02imp.
 Import ListNotations.
 Open Scope Z_scope.
 
@@ -114,6 +114,31 @@ Section Data.
     (if (o_dtype s =? r_dtype c) then 0 else 128).
   Definition case_code (c : geo_case * data_case) : Z := geo_code (fst c) + data_code (fst c) (snd c).
 End Data.
+
+(* ---- the TRANSLATED get_sample_from_neighbour_info (Gen/GenC02imp.v) run on the same cases: the data array in the layout
+        it was handed over in ([inshape]), the implementation's own neighbour info; compared with the observed array ---- *)
+Section ImpRun.
+  Context {V : Type} (veqb : V -> V -> bool) (vsame : V -> V -> bool) (vzero vone : V).
+  Definition imp_code (c : geo_case * @data_case V * list Z) : Z :=
+    let '(g, d, inshape) := c in
+    let data := mk_nda inshape (concat (d_rows d)) (match d_mrows d with Some mm => Some (concat mm) | None => None end) (d_dtype d) in
+    let ia := mk_nda [zlen (g_idx g)] (g_idx g) None 0 in
+    match value_of (imp_get_sample veqb vzero vone (fun _ => d_sentinel d) tt (d_tshape d) data (g_vii g) (g_voi g) ia tt tt (d_fill d) false) with
+    | COk r =>
+        (if list_eqb vsame (a_data r) (r_vals d) then 0 else 512) +
+        (match r_mask d, a_mask r with
+         | Some m, Some m' => if bool_list_eqb m' m then 0 else 1024
+         | None, None => 0
+         | _, _ => 1024
+         end) +
+        (if z_list_eqb (a_shape r) (r_shape d) then 0 else 2048) +
+        (if a_dtype r =? r_dtype d then 0 else 4096)
+    | _ => 8192
+    end.
+  Definition full_code (c : geo_case * @data_case V * list Z) : Z := case_code veqb vsame vzero vone (fst c) + imp_code c.
+End ImpRun.
+Definition full_code_F := full_code (V := float) PrimFloat.eqb same_bits 0%float 1%float.
+Definition full_code_Z := full_code (V := Z) Z.eqb Z.eqb 0 1.
 
 Definition case_code_F := case_code (V := float) PrimFloat.eqb same_bits 0%float 1%float.
 Definition case_code_Z := case_code (V := Z) Z.eqb Z.eqb 0 1.
